@@ -298,6 +298,25 @@ pub fn model_line(file: &[u8], visible0: usize, ops: &[Op], cfg: &Config) -> Str
     )
 }
 
+/// the weaker comparison for runs over a growing input: results of the calls other than end-of-input (and other than the
+/// growth steps themselves), in order; one side may be ahead of the other at the end
+pub fn agree_modulo_eof(model: &str, t: &Trace, ops: &[Op]) -> bool {
+    let mt = match model.split_once(" | ") {
+        Some((a, _)) => a,
+        None => return false,
+    };
+    let strip = |toks: Vec<&str>| -> Vec<String> {
+        toks.iter().enumerate().filter(|(i, x)| !matches!(ops.get(*i), Some(Op::Grow(_))) && **x != "err(eof)").map(|(_, x)| x.to_string()).collect()
+    };
+    if t.panicked || mt.contains("PANIC") {
+        return false;
+    }
+    let a = strip(mt.split(' ').collect());
+    let b = strip(t.tokens.iter().map(|x| x.as_str()).collect());
+    let n = a.len().min(b.len());
+    a[..n] == b[..n]
+}
+
 /// compare a model answer with an implementation trace: tokens up to the first PANIC on either side, then
 /// (if no panic) the reader counters; the Info part is compared only when the model kept a Reader.
 pub fn agree(model: &str, t: &Trace) -> bool {
